@@ -60,13 +60,19 @@ func boundTarget(p *core.Program, v ssa.Value) *ssa.Function {
 	if ct, ok := v.(*ssa.ChangeType); ok {
 		v = ct.X
 	}
-	mc, ok := v.(*ssa.MakeClosure)
-	if !ok {
+	var w *ssa.Function
+	switch x := v.(type) {
+	case *ssa.MakeClosure:
+		w, _ = x.Fn.(*ssa.Function)
+	case *ssa.Function:
+		// a method expression (*T).m: the thunk that takes the receiver as its first parameter
+		w = x
+	}
+	if w == nil {
 		return nil
 	}
-	w, ok := mc.Fn.(*ssa.Function)
-	if !ok {
-		return nil
+	if w.Synthetic == "" {
+		return w
 	}
 	if obj, ok := w.Object().(*types.Func); ok && obj != nil {
 		if f := p.SSA.FuncValue(obj); f != nil {
